@@ -534,18 +534,28 @@ fn handle_request_in_worker(req_src: &str, env: &mut Env, session: &mut Session)
         return;
     };
 
-    let res = match req {
+    let request_id = match &req {
+        Request::Load { id, .. } | Request::Run { id, .. } | Request::EvalUpTo { id, .. } => *id,
+        Request::Interrupt => None,
+    };
+
+    // A panic while handling a request is a bug in Garden, but the
+    // client must still get a response and the session must stay
+    // able to serve the next request.
+    let handled = std::panic::catch_unwind(std::panic::AssertUnwindSafe(|| match req {
         Request::Load {
             input,
             path,
             offset,
             end_offset,
             id,
-        } => handle_load_request(id, &path, &input, offset, end_offset, env),
+        } => Some(handle_load_request(
+            id, &path, &input, offset, end_offset, env,
+        )),
         Request::Interrupt => {
             // Nothing to do, handled outside this threaad so it
             // doesn't require locking env.
-            return;
+            None
         }
         Request::Run {
             path,
@@ -553,13 +563,46 @@ fn handle_request_in_worker(req_src: &str, env: &mut Env, session: &mut Session)
             offset,
             end_offset,
             id,
-        } => handle_run_request(input, env, session, id, path, offset, end_offset),
+        } => Some(handle_run_request(
+            input, env, session, id, path, offset, end_offset,
+        )),
         Request::EvalUpTo {
             path,
             src,
             offset,
             id,
-        } => handle_eval_up_to_request(path.as_ref(), &src, offset, env, session, id),
+        } => Some(handle_eval_up_to_request(
+            path.as_ref(),
+            &src,
+            offset,
+            env,
+            session,
+            id,
+        )),
+    }));
+
+    let res = match handled {
+        Ok(Some(res)) => res,
+        Ok(None) => return,
+        Err(_) => {
+            env.stack.pop_to_toplevel();
+            env.stop_at_expr_id = None;
+
+            Response {
+                kind: ResponseKind::Evaluate {
+                    warnings: vec![],
+                    value: Err(vec![ResponseError {
+                        position: None,
+                        message: "Internal error: Garden crashed while handling this request."
+                            .to_owned(),
+                        stack: None,
+                    }]),
+                    stack_frame_name: Some(env.top_frame_name()),
+                },
+                position: None,
+                id: request_id,
+            }
+        }
     };
 
     print_as_json(&res, session.pretty_print_json);
